@@ -77,6 +77,11 @@ def choke_point(prog, ctx, rule):
     return gate, parser
 
 
+# only where length == 0 is an ordinary state (the line loop before the first entry).  store() indexes [length-1] after a
+# conditional length++ that rests on the object invariant alloc_length == length of parsed objects - value reasoning, not armed.
+LAST_ENTRY_FUNCS = ("read_file", "read_file_with_callback")
+
+
 def unsigned_minus_indices(ctx, rule, f):
     """Every array index of the form E - k with unsigned E must be reachable only with E >= k established
     (consistent-path reachability).  Returns the number of instances."""
@@ -100,7 +105,10 @@ def unsigned_minus_indices(ctx, rule, f):
                     sh = _loops.for_shape(a)
                     if sh.var == e and sh.start_node is not None and (sh.start_node.const_value() is None or sh.start_node.const_value() < k):
                         ind = True
-            if not ind:
+            # ... or the "last entry" access  X->file_entry[X->length - 1]  of the parser unit: length is 0 for a file that
+            # has not produced an entry yet, so it needs `length > 0` (or an append) on the way
+            last_entry = e.endswith("->length") and render(x.children[0]).endswith("->file_entry") and f.name in LAST_ENTRY_FUNCS
+            if not ind and not last_entry:
                 continue
             n += 1
 
@@ -110,6 +118,8 @@ def unsigned_minus_indices(ctx, rule, f):
                 if lit.kind == "truth" and lit.atom == e and lit.pol:
                     return k == 1
                 if lit.kind == "lt" and render(lit.rhs) == e and lit.pol and lit.lhs.const_value() is not None and lit.lhs.const_value() >= k - 1:
+                    return True
+                if lit.kind == "eq" and not lit.pol and k == 1 and ((render(lit.lhs) == e and lit.rhs.const_value() == 0) or (render(lit.rhs) == e and lit.lhs.const_value() == 0)):
                     return True
                 return False
             wp = cfg.feasible_reach(cfg.block_of(x), guard, lambda a, e=e: a == e or (" " + e + " ") in (" " + a + " "))
